@@ -22,6 +22,7 @@ type tableFeat struct {
 	Summary    bool
 	Object     string // "", embed, object, applet, iframe
 	BlankCap   bool   // an empty <caption> in front of another header structure (never alone)
+	EditSpell  int    // spelling of the contenteditable attribute on a <div>: ="true", ="", bare, ="plaintext-only"
 	Place      string // div, section, blockquote, layout-td
 }
 
@@ -30,8 +31,8 @@ var (
 	tfDesc     = []string{"", "row", "gridcell", "search"}
 	tfRows     = []int{3, 1, 2, 19, 20}
 	tfCols     = []int{4, 1, 2, 5}
-	tfHeaders  = []string{"", "caption", "thead", "tfoot", "colgroup", "col", "th", "th-button"}
-	tfCellAttr = []string{"", "abbr", "headers", "scope", "loneabbr"}
+	tfHeaders  = []string{"", "caption", "thead", "tfoot", "colgroup", "col", "th", "th-button", "th-rowhead", "th-corner"}
+	tfCellAttr = []string{"", "abbr", "headers", "scope", "loneabbr", "negspan"}
 	tfObjects  = []string{"", "embed", "object", "applet", "iframe"}
 	tfCells    = []int{0, 10, 11}
 	tfPlaces   = []string{"div", "section", "blockquote", "layout-td"}
@@ -74,7 +75,7 @@ func (f tableFeat) expect() (data bool, rule string) {
 		cells = f.Rows * f.Cols
 	}
 	rows := f.Rows
-	if f.Header == "thead" || f.Header == "tfoot" || f.Header == "th" || f.Header == "th-button" {
+	if f.Header == "thead" || f.Header == "tfoot" || f.Header == "th" || f.Header == "th-button" || f.Header == "th-corner" {
 		rows++ // the header structure brings its own row
 	}
 	switch {
@@ -96,7 +97,7 @@ func (f tableFeat) expect() (data bool, rule string) {
 		return false, "one-column"
 	case f.Header != "":
 		return true, "header-structure"
-	case f.CellAttr != "":
+	case f.CellAttr != "" && f.CellAttr != "negspan": // a span that is not a positive number is no span
 		return true, "cell-attribute"
 	case f.Summary:
 		return true, "summary"
@@ -157,10 +158,13 @@ func (f tableFeat) html(g *tokCounter) string {
 	if cells == 0 {
 		cells = f.Rows * f.Cols
 	}
-	if f.Header == "th" || f.Header == "th-button" {
+	if f.Header == "th" || f.Header == "th-button" || f.Header == "th-corner" {
 		sb.WriteString("<tr>")
 		for c := 0; c < f.Cols; c++ {
-			if f.Header == "th-button" {
+			if f.Header == "th-corner" && c == 0 && f.Cols > 1 {
+				// the empty corner cell of a cross-tab
+				sb.WriteString("<th></th>")
+			} else if f.Header == "th-button" {
 				// a sortable column header: the label sits inside a button
 				sb.WriteString("<th><button type=\"button\">" + g.tok() + "</button></th>")
 			} else {
@@ -175,6 +179,9 @@ func (f tableFeat) html(g *tokCounter) string {
 		if r == 0 && f.DescRole == "row" {
 			sb.WriteString(` role="row"`)
 		}
+		if r == 0 && f.CellAttr == "negspan" {
+			sb.WriteString(` rowspan="-1"`)
+		}
 		sb.WriteString(">")
 		n := f.Cols
 		rowsLeft := f.Rows - r - 1
@@ -188,10 +195,17 @@ func (f tableFeat) html(g *tokCounter) string {
 			}
 		}
 		for c := 0; c < n; c++ {
+			if f.Header == "th-rowhead" && c == 0 && n > 1 {
+				// row headers: the first cell of every row is a <th>
+				sb.WriteString("<th>" + g.tok() + "</th>")
+				continue
+			}
 			sb.WriteString("<td")
-			first := r == 0 && c == 0
+			first := r == 0 && (c == 0 || (c == 1 && f.Header == "th-rowhead" && n > 1))
 			if first {
 				switch f.CellAttr {
+				case "negspan":
+					sb.WriteString(` colspan="-1"`)
 				case "abbr":
 					sb.WriteString(` abbr="a"`)
 				case "headers":
@@ -238,7 +252,7 @@ func (f tableFeat) html(g *tokCounter) string {
 	sb.WriteString("</table>")
 	s := sb.String()
 	if f.Editable && (f.EditableAt == "div" || f.EditableAt == "") {
-		s = `<div contenteditable="true">` + s + `</div>`
+		s = `<div` + []string{` contenteditable="true"`, ` contenteditable=""`, ` contenteditable`, ` contenteditable="plaintext-only"`}[f.EditSpell%4] + `>` + s + `</div>`
 	}
 	switch f.Place {
 	case "section":
